@@ -64,6 +64,8 @@ class Kernel:
         self.spd = {}
         self.requests = []       # (ordinal, type, summary, verdict)
         self.fail = set()        # ordinals of requests to refuse (fault injection)
+        self.fail_newsa = set()  # ordinals (counting NEWSA requests only) of NEWSA requests to refuse
+        self.n_newsa = 0
         self.fail_types = {}     # msg type -> errno for every request of that type
         self.n = 0
 
@@ -76,7 +78,11 @@ class Kernel:
         err = 0
         summary = None
         t = hdr.type
-        if ordinal in self.fail or t in self.fail_types:
+        is_newsa = t == xfrm.XFRM_MSG_NEWSA
+        k_newsa = self.n_newsa
+        if is_newsa:
+            self.n_newsa += 1
+        if ordinal in self.fail or t in self.fail_types or (is_newsa and k_newsa in self.fail_newsa):
             err = self.fail_types.get(t, EINVAL)
             summary = ('refused', t)
         elif t == xfrm.XFRM_MSG_NEWSA:
